@@ -5,6 +5,8 @@
  (3) the E4 corpus entries tagged with the property (selftest/run.py --props Cxx): breaking mutants that are not
      reported are printed as SELFTEST-MISS, behaviour-preserving variants that raise an alarm as SELFTEST-FALSE-ALARM;
      both are recorded, they are defects of the checker and never a VIOLATION of the property,
+ (3b) the independently seeded breaking changes recorded against this property's rules (seeded/*/meta.json), applied to
+      scratch copies: each must be reported by one of the recorded rules (SELFTEST-MISS otherwise),
  (4) the property module's own `thorough(ctx)` hook if it has one."""
 import json
 import os
@@ -59,6 +61,16 @@ def run(ctx, mod):
                 print("SELFTEST-MISS: mutant %s of %s was not reported (%s)" % (k, ctx.prop, v))
             if v == "FALSE-ALARM":
                 print("SELFTEST-FALSE-ALARM: behaviour-preserving variant %s raises an alarm in %s or a sibling check" % (k, ctx.prop))
+    # (3b) the independently seeded breaking changes this property's rules are recorded to report (seeded/*/meta.json):
+    # each is applied to a scratch copy of /repo's sources; the check must fail there and name one of the recorded rules
+    if os.environ.get("AX_NO_SELFTEST") != "1" and F.REPO == "/repo":
+        try:
+            ck.cov["seeded_changes"] = run_seeds(ctx.prop)
+            for sid, st_ in sorted(ck.cov["seeded_changes"].items()):
+                if st_ != "reported":
+                    print("SELFTEST-MISS: seeded change %s is not reported by %s (%s)" % (sid, ctx.prop, st_))
+        except Exception as e:  # noqa
+            ck.cov["seeded_changes"] = "error: %s" % e
     # (5) E3 compile-fail witnesses (type-level part of the who-may-write rules)
     wmap = {"C09": ("AreaTypeIsPrivate", "StateIsPrivate", "FetchIsCrateInternal"), "C10": ("AreaTypeIsPrivate", "StateIsPrivate"),
             "C11": ("FinishedIsPrivate", "LoopControlIsPrivate"), "C12": ("HooksArePrivate",), "C04": ("LoopControlIsPrivate",)}
@@ -75,6 +87,37 @@ def run(ctx, mod):
                                       "(or the compiling twin broke: the witness path is wrong)")
     if hasattr(mod, "thorough"):
         mod.thorough(ctx)
+
+
+def run_seeds(prop):
+    import glob
+    import re
+    import shutil
+    import tempfile
+    out = {}
+    for mp in sorted(glob.glob(os.path.join(F.VERIF, "seeded", "S*", "meta.json"))):
+        meta = json.load(open(mp))
+        rules = [r for r in meta.get("detected_by", []) if r.startswith(prop + ".")]
+        if not rules:
+            continue
+        base = tempfile.mkdtemp(prefix="axseedchk-")
+        try:
+            tree = os.path.join(base, "tree")
+            os.makedirs(tree)
+            for n in ("Cargo.toml", "Cargo.lock"):
+                shutil.copy(os.path.join(F.REPO, n), tree)
+            shutil.copytree(os.path.join(F.REPO, "src"), os.path.join(tree, "src"))
+            r = subprocess.run(["git", "apply", os.path.join(os.path.dirname(mp), "patch.diff")], cwd=tree, capture_output=True, text=True)
+            if r.returncode != 0:
+                out[meta["id"]] = "patch no longer applies"
+                continue
+            env = dict(os.environ, AX_REPO=tree, AX_CACHE=os.path.join(base, "cache"), AX_EVIDENCE_DIR=os.path.join(base, "ev"))
+            r = subprocess.run([sys.executable, "-m", "axcheck_py", prop], cwd=F.VERIF, env=env, capture_output=True, text=True)
+            fired = set(re.findall(r"rule=(\S+)", r.stdout + r.stderr))
+            out[meta["id"]] = "reported" if r.returncode == 1 and fired & set(rules) else "rc=%d rules=%s" % (r.returncode, sorted(fired)[:4])
+        finally:
+            shutil.rmtree(base, ignore_errors=True)
+    return out
 
 
 def run_witnesses():
